@@ -135,6 +135,12 @@ def run(ctx: lib.Ctx) -> None:
                 'through blind_unpack. malformed: byte strings of every length 0..24 and around 33/34/49/64/96, valid forms with '
                 'mutated tag/padding bytes, truncations, extensions. non-trivial = every case except the empty byte string; '
                 'distinct = distinct (operation, input)')
+    # the rows forge.py relies on (hard-coded prefix lengths 3/4, kinds it names) in the table found in /repo
+    from c09 import coq_row
+    rows_def = 'Definition repo_table : list row := [\n  ' + ';\n  '.join(coq_row(r) for r in table) + '\n].\n'
+    ans = ctx.coq_eval(IMPORTS, '(domain_rows_ok repo_table, table_ok repo_table)', prelude=rows_def)
+    rows_ok = '= (true, true)' in ans
+    ctx.extra['repo_table_domain_rows_ok'] = rows_ok
     tcases, tmeta, tmeta_all = [], [], []   # typed level (tmeta_all: every call made, tmeta: those also sent to coqc)
     xcases, xmeta = [], []   # text level
     reported = 0
@@ -426,9 +432,10 @@ def run(ctx: lib.Ctx) -> None:
     bad_t = [i for i in bad if i < len(tcases)]
     bad_x = [i - len(tcases) for i in bad if i >= len(tcases)]
     ctx.extra['disagreements'] = {'typed': len(bad_t), 'text': len(bad_x)}
-    if reported == 0 and (bad_t or bad_x):
+    if reported == 0 and (bad_t or bad_x or not rows_ok):
         rep = {'correspondence': 'C10/pytezos.michelson.forge + types.domain + blind_unpack vs Codec.Domain',
-               'disagreements': ctx.extra['disagreements']}
+               'disagreements': ctx.extra['disagreements'], 'repo_table_has_the_rows_forge_py_assumes': rows_ok,
+               'coq_answer_for_repo_table': ans[-300:]}
         if bad_t:
             i = bad_t[0]
             rep['typed_case'] = {'call': list(tmeta[i]), 'case': tcases[i][0], 'implementation': tcases[i][1],
